@@ -162,6 +162,41 @@ class Facts:
             f.write('%f\n' % (time.time() - t0))
         self.timings['mirscan_s'] = round(time.time() - t0, 1)
 
+    # ------------------------------------------------------------------ E1x
+    def exp(self):
+        """Macro-expanded sv-parser-syntaxtree (derive output), parsed by synscan."""
+        if self._exp is not None:
+            return self._exp
+        out = os.path.join(self.dir, 'exp.json')
+        with Lock(os.path.join(VERIF, '.cache', 'lock')):
+            if not os.path.exists(out):
+                os.makedirs(self.dir, exist_ok=True)
+                t0 = time.time()
+                target = tempfile.mkdtemp(prefix='verif-exp-target-')
+                try:
+                    env = dict(os.environ)
+                    env.update({'CARGO_TARGET_DIR': target, 'CARGO_NET_OFFLINE': 'true'})
+                    self.log('E1x: expanding sv-parser-syntaxtree (cargo +nightly rustc -Zunpretty=expanded, about 15 s)...')
+                    r = subprocess.run(['cargo', '+nightly', 'rustc', '--offline', '-p', 'sv-parser-syntaxtree', '--lib', '--',
+                                        '-Zunpretty=expanded'], cwd=self.root, env=env, capture_output=True, text=True)
+                    if r.returncode != 0 or len(r.stdout) < 100000:
+                        raise RuntimeError('E1x: macro expansion failed:\n' + r.stderr[-3000:])
+                    src = os.path.join(target, 'expanded.rs')
+                    with open(src, 'w') as f:
+                        f.write(r.stdout)
+                    subprocess.run([SYNSCAN, out + '.tmp', '--skip-impl-of',
+                                    'Clone,Debug,PartialEq,StructuralPartialEq,Copy,Default,TrivialClone,Display',
+                                    'expanded=' + src], check=True)
+                    os.replace(out + '.tmp', out)
+                finally:
+                    shutil.rmtree(target, ignore_errors=True)
+                self.timings['expand_s'] = round(time.time() - t0, 1)
+        with open(out) as f:
+            self._exp = json.load(f)['files']['expanded']
+        if 'error' in self._exp:
+            raise RuntimeError('E1x: expanded source does not parse: ' + self._exp['error'])
+        return self._exp
+
     def src(self, rel):
         with open(os.path.join(self.root, rel)) as f:
             return f.read()
